@@ -166,6 +166,43 @@ theorem cache_file_transparent {Cfg Spec : Type} (srcKey : Bytes → K × Bool) 
   · exact (specifier_guard srcKey hash (P v c s) decode _ _ _ (hround _)
       (by simpa [saveAt] using hspec) _ ps).2
 
+/-- END TO END with `nohash` fields. `structural_hash` skips dataclass fields marked `nohash`, so the config hash is a
+collision-free hash of a PROJECTION `π` of the configuration, not of all of it; the parser reads the configuration through
+another projection `ρ` (the fields a parse looks at). Transparency holds for every configuration edit and every history
+provided every field a parse reads is hashed: `π c = π c' → ρ c = ρ c'` (checked on the implementation by the
+configuration-read audit: the ProjectConfig fields read during parsing vs. the `nohash` metadata). -/
+theorem cache_file_transparent_nohash {Cfg CfgH CfgR Spec : Type} (srcKey : Bytes → K × Bool) (hash : Bytes → H)
+    (hK : KeyInjective srcKey) (hH : Function.Injective hash)
+    (π : Cfg → CfgH) (ρ : Cfg → CfgR) (hcover : ∀ c c', π c = π c' → ρ c = ρ c')
+    (hc : CfgH → String) (hs : Spec → String)
+    (hcI : Function.Injective hc) (hsI : Function.Injective hs)
+    (P : String → CfgR → Spec → ParseFn Page) (hdeps : ∀ v c s, DepsCoverReads (P v c s))
+    (encode : CacheData Page H K → Bytes) (decode : Bytes → Option (CacheData Page H K))
+    (hround : ∀ d, decode (encode d) = some d)
+    (v₀ v : String) (c₀ c : Cfg) (s₀ s : Spec)
+    (e₀ : Env) (ps₀ : List FileId) (history : List Edit) (ps : List FileId) :
+    buildWithCache srcKey hash (P v (ρ c) s)
+        (readCache decode (specifier v (hc ∘ π) hs c s)
+          (some (encode (saveAt srcKey hash (P v₀ (ρ c₀) s₀) (specifier v₀ (hc ∘ π) hs c₀ s₀) e₀ ps₀))))
+        (applyHistory e₀ history) ps
+      = buildClean (P v (ρ c) s) (applyHistory e₀ history) ps := by
+  by_cases hspec : specifier v₀ (hc ∘ π) hs c₀ s₀ = specifier v (hc ∘ π) hs c s
+  · have h := hspec
+    simp only [specifier, List.cons.injEq, and_true, Function.comp] at h
+    obtain ⟨hv, hcfg, hsp⟩ := h
+    have hρ : ρ c₀ = ρ c := hcover _ _ (hcI hcfg)
+    have hsp' : s₀ = s := hsI hsp
+    subst hv; subst hsp'
+    rw [← hρ, ← hspec]
+    have : readCache decode (specifier v₀ (hc ∘ π) hs c₀ s₀)
+        (some (encode (saveAt srcKey hash (P v₀ (ρ c₀) s₀) (specifier v₀ (hc ∘ π) hs c₀ s₀) e₀ ps₀)))
+        = saveAt srcKey hash (P v₀ (ρ c₀) s₀) (specifier v₀ (hc ∘ π) hs c₀ s₀) e₀ ps₀ := by
+      simp [readCache, loadFile, hround, saveAt]
+    rw [this]
+    exact cache_transparent srcKey hash hK hH _ (hdeps _ _ _) _ e₀ ps₀ history ps
+  · exact (specifier_guard srcKey hash (P v (ρ c) s) decode _ _ _ (hround _)
+      (by simpa [saveAt] using hspec) _ ps).2
+
 end
 
 /-! ## Non-vacuity: a 2-file toy parser (page `a` shows the content of `b`, like a literalinclude) -/
@@ -224,6 +261,26 @@ theorem transparency_needs_deps :
     buildWithCache (K := Bytes) (H := Bytes) (fun b => (b, true)) id toyForgetful (saveAt (fun b => (b, true)) id toyForgetful [] disk₀ ["a"])
       (applyHistory disk₀ [("b", some [7])]) ["a"]
     ≠ buildClean toyForgetful (applyHistory disk₀ [("b", some [7])]) ["a"] := by decide
+
+/-- A FIELD THE PARSER READS MUST BE HASHED: configuration = (hashed flag, unhashed flag); a parser that shows the
+UNHASHED flag on the page is served the stale page from the cache after that flag is edited (the specifier is the same),
+while the clean build shows the new value. With `π = ρ` (the flag is hashed) the theorem above applies. -/
+def cfgToy (flag : Bool) : ParseFn (Option Bytes × Bool) where
+  parse e p := (e p, flag)
+  reads _ p := [p]
+  deps _ _ := some []
+  footprint := by
+    intro e e' p h
+    simp [h p (by simp)]
+
+theorem unhashed_config_read_refuted :
+    let π : Bool × Bool → Bool := Prod.fst
+    let spec := fun (c : Bool × Bool) => specifier "v" ((fun b => toString b) ∘ π) (fun (_ : Unit) => "s") c ()
+    spec (true, false) = spec (true, true) ∧
+    buildWithCache (K := Bytes) (H := Bytes) (fun b => (b, true)) id (cfgToy true)
+        (readCache (fun _ => some (saveAt (fun b => (b, true)) id (cfgToy false) (spec (true, false)) disk₀ ["a"])) (spec (true, true)) (some []))
+        disk₀ ["a"]
+      ≠ buildClean (cfgToy true) disk₀ ["a"] := by decide
 
 /-- specifier guard / corruption: concrete instances (a decoder that accepts only the byte string [1]) -/
 example : loadFile (Page := Nat) (H := Bytes) (K := Bytes)
